@@ -1,4 +1,6 @@
 import RTV.Lemmas.Literal
+import RTV.Lemmas.Format
+import RTV.Lemmas.Percent
 import RTV.Model.NumCfg
 /-!
 # C03 — numeric literals resolve to exactly the number written, in every culture
@@ -192,6 +194,67 @@ theorem format_canonical :
       [49, 46, 48, 48, 48, 48, 48, 48, 48, 48, 48, 48, 48, 48, 48, 48, 69, 45, 48, 55] ∧           -- 1.00000000000000E-07
     Dec.format (some (46, 44)) ⟨false, 100000000000000, 1⟩ = [49, 46, 69, 43, 49, 53] := by        -- 1.E+15
   decide +kernel
+
+
+/-! ### `CultureInfo.format` in general (positional notation) -/
+
+/-- the decimal mark a culture writes -/
+def writtenDecimalMark (c : Culture) : Nat := match c.longFormat with | some (dm, _) => dm | none => 46
+
+/-- in every regenerated long format the grouping mark is neither a digit, nor `-`, nor the decimal mark -/
+theorem grouping_mark_foreign :
+    (cultures.all fun c => let g := (writtenMarks c).1
+      !(decide (48 ≤ g) && decide (g ≤ 57)) && g != 45 && g != writtenDecimalMark c) = true := by
+  decide
+
+/-- **C03(d) `format_canonical`, general.** For every regenerated culture and every decimal with exponent ≤ 0 and
+adjusted exponent ≥ −6 — that is every value `digital_exact_literal` returns for a literal down to 10^-6 — the
+resolution string consists of digits, an optional `-` and the culture's own decimal mark only; in particular it has
+no exponent part and does not contain the culture's grouping mark. (That it has no trailing zeros and reads back as
+the value is checked on the closed instances `format_canonical` / `number_literal` and by the unit correspondence of
+`format` on every run.) -/
+theorem format_canonical_general (c : Culture) (hc : c ∈ cultures) (d : Dec) (he : d.exp ≤ 0)
+    (hadj : d.exp + ((Dec.digitsOf d.coeff).length : Int) > -6) :
+    (∀ ch ∈ Dec.format c.longFormat d, (48 ≤ ch ∧ ch ≤ 57) ∨ ch = 45 ∨ ch = writtenDecimalMark c) ∧
+      (writtenMarks c).1 ∉ Dec.format c.longFormat d := by
+  have h := Dec.format_plain c.longFormat d he hadj
+  refine ⟨h, ?_⟩
+  intro hmem
+  have hg := grouping_mark_foreign
+  rw [List.all_eq_true] at hg
+  have hgc := hg c hc
+  simp only [Bool.and_eq_true, Bool.not_eq_true', bne_iff_ne, ne_eq, Bool.and_eq_false_iff,
+    decide_eq_false_iff_not] at hgc
+  rcases h _ hmem with ⟨a, b⟩ | h45 | hdm
+  · rcases hgc.1.1 with x | x <;> omega
+  · exact hgc.1.2 h45
+  · exact hgc.2 hdm
+
+/-- **C03(c) `percent_literal`, general** (`BasePercentageParser`, every culture except zh-cn whose percentage
+parser works on floats): whenever the number's digit value has exponent ≤ 0 and adjusted exponent ≥ −6, the percentage
+resolution is the number's resolution followed by exactly one `%` — same decimal mark, no grouping mark. `isSpace`
+is any white-space predicate that is false on digits, `-`, the decimal mark. -/
+theorem percent_literal_general (tab : DigitTab) (c : Culture) (hc : c ∈ cultures) (isSpace : Nat → Bool)
+    (hsp : ∀ ch, ((48 ≤ ch ∧ ch ≤ 57) ∨ ch = 45 ∨ ch = writtenDecimalMark c) → isSpace ch = false)
+    (text : Str) (d : Dec) (hd : digitalValue 15 tab c.sep text 1 = .ok d) (he : d.exp ≤ 0)
+    (hadj : d.exp + ((Dec.digitsOf d.coeff).length : Int) > -6) (hne : Dec.format c.longFormat d ≠ []) :
+    percentResolution 15 tab c.sep c.longFormat isSpace text = .ok (Dec.format c.longFormat d ++ [37]) ∧
+      digitResolution 15 tab c.sep c.longFormat text = .ok (Dec.format c.longFormat d) := by
+  obtain ⟨hch, _⟩ := format_canonical_general c hc d he hadj
+  have hdm : writtenDecimalMark c ≠ 37 := by
+    have : (cultures.all fun c => writtenDecimalMark c != 37) = true := by decide
+    rw [List.all_eq_true] at this
+    simpa using this c hc
+  have hres : digitResolution 15 tab c.sep c.longFormat text = .ok (Dec.format c.longFormat d) := by
+    simp [digitResolution, hd, bind, Except.bind, pure, Except.pure]
+  refine ⟨?_, hres⟩
+  simp only [percentResolution, hres, bind, Except.bind, pure, Except.pure]
+  rw [percentSuffix_plain isSpace _ hne (fun ch h => hsp ch (hch ch h))]
+  intro h37
+  rcases hch 37 h37 with ⟨a, _⟩ | h | h
+  · omega
+  · omega
+  · exact hdm h.symm
 
 /-- Beyond the precision: a 16-digit integer is rounded once, half-even, to 15 digits … -/
 theorem digital_round16 :
